@@ -34,6 +34,9 @@ CORPUS = [
     (["-c", "$", "-c", "\x16X."], "ab\ncd\nef\n"), (["-m", ":5r nonexistent-file<CR>"], "a\nb\n"), (["-m", "A<del><del><esc>"], "ab\n"), (["-m", "dwdwdwdwdw"], "a b\n"),
     (["-m", "x"], ""), (["-m", "xxxx"], "ab"), (["-r", "9", "9"], "a\n"), (["-m", "w", "-r", "5", "2"], "a b c\n"), (["-g", "a", "-m", "x", "-r", "7", "3", "--end"], "a\nb\n"),
     (["-m", "o2<c-w><esc>j"], "\r\n\r\n"),
+    # crashes of the unchanged tree found by a round-8 agent while it was looking for places to seed one (all repaired)
+    (['opts { silent }\nlet s = "éa"\ns[0] = "x"\necho $s\n'], "ab\n"), (["-m", "9999999999d9999999999w"], "ab cd\n"), (["-m", "yl99999999999999999p"], "ab cd\n"),
+    (['opts { keep_mode }\npush $buffers "x"\nm "v"\nbuf switch 1\nm "d"\n'], "ab cd\n"), (["-m", "9999999999w", "-c", "9999999999b"], "ab cd ef\nx y\n"), (["-m", "99999999999999999999x"], "ab\n"),
     # a block insert of multi-byte text, then a command that looks at lines
     (["-m", "<c-v>jjcé<esc>", "-m", "j"], "ab\ncd\nef\n"), (["-m", "<c-v>jIü<esc>", "-m", "dd"], "éa\nüb\nc\n"), (["-m", "<c-v>j$A日<esc>", "-c", "$"], "ab\ncd\nef\n"),
 ]
